@@ -69,6 +69,11 @@ def generate():
     lines.append('Definition punct_ranges : list (Z * Z) := %s.' % fmt(ranges(lambda c: chr(c) in core.punctuation)))
     lines.append('Definition uws_ranges : list (Z * Z) := %s.' % fmt(ranges(lambda c: chr(c) in core.unicode_whitespace)))
     lines.append('Definition ws_ranges : list (Z * Z) := %s.' % fmt(ranges(lambda c: chr(c) in core.whitespace)))
+    import string as _string
+    lines.append('(* CommonMark 0.30 definitions, from unicodedata (NOT from mistletoe): Unicode whitespace = Zs, tab, LF, FF, CR;')
+    lines.append('   punctuation = ASCII punctuation or general category P* *)')
+    lines.append('Definition spec_ws_ranges : list (Z * Z) := %s.' % fmt(ranges(lambda c: unicodedata.category(chr(c)) == 'Zs' or c in (9, 10, 12, 13))))
+    lines.append('Definition spec_punct_ranges : list (Z * Z) := %s.' % fmt(ranges(lambda c: chr(c) in _string.punctuation or unicodedata.category(chr(c)).startswith('P'))))
     lines.append('(* mistletoe.span_token._tags *)')
     lines.append('Definition html_tags : list (list Z) :=\n  [%s]%%Z.' % '; '.join(cstr(t) for t in sorted(span._tags)))
     ents = sorted(html.entities.html5.items())
